@@ -568,9 +568,11 @@ def run(ctx):
                 "emitted at least one voteproof; distinct by (suffrage, local, threshold, call sequence); the op Tick is a run of "
                 "the box's own ticker with the holds expired")
     ctx.assumptions = [
-        "suffrage known and the same for every height",
-        "forwarded voteproofs (taken out of a ballot) are checked against the weaker reading: embedded in some ballot handed to "
-        "Vote, valid for the suffrage, result = recount with the voteproof's own threshold",
+        "the suffrage is the same for every height; the box knows it for every height except in the forwarding scripts of a "
+        "lagging node (known up to a height); voteproofs are always judged with the real suffrage",
+        "forwarded voteproofs (taken out of a ballot) are checked against the weaker reading: the very content embedded in some "
+        "ballot handed to Vote (whatever its sender-chosen ID repeats), valid for the suffrage, result = recount with the "
+        "voteproof's own threshold",
         "soundness, not completeness: a voteproof the box could have emitted but did not is no violation",
         "whether a record is held (voterecords.countAfter) is not observable: a run of the ticker is judged by what it emitted; "
         "the hold duration is either zero or never expires except in a Tick (no wall-clock dependent hold)",
